@@ -161,6 +161,46 @@ def run_shard(spec_, res):
                 judge(res, raw_att, build.norm(snapshot.snap_synth(syn_att), "before"), c.describe(), f"synth-of-attached:{T}")
             except Exception:
                 res.count("unsaveable_cases")
+            # objects whose PUBLIC state holds values outside the ranges the library knows: (1) the file they were loaded from
+            # carried such values (readers keep them), (2) a unit-dependent controller keeps its value when the unit is
+            # switched to one with a narrower range.  What is written must still be exactly the public state.
+            try:
+                import random as _r
+                from . import c05
+                mrng = _r.Random(index)
+                X = None
+                for _try in range(6):
+                    mut = c05.mutate(raw, mrng)
+                    if mut and mut[0] == "cval":
+                        X = mut[1]
+                        break
+                if X is not None:
+                    o = workload.load(X)
+                    n_oor = c05.count_out_of_range(o)
+                    raw_o = o.read()
+                    judge(res, raw_o, build.norm(snapshot.snap_synth(o), "before"), dict(c.describe(), cval_mutated=True), f"synth-loaded-out-of-range:{T}")
+                    res.count("out_of_range_public_values_written", n_oor)
+            except Exception:
+                res.count("unloadable_or_unsaveable_mutants")
+            try:
+                t = spec.load()[T]
+                deps = [sc for sc in t.controllers if sc.kind == "dependent"]
+                if deps:
+                    m2 = c.obj.clone()
+                    for sc in deps:
+                        ecls = getattr(type(m2), sc.enum)
+                        wide = max(sc.ranges, key=lambda u: sc.ranges[u][1])
+                        narrow = min(sc.ranges, key=lambda u: sc.ranges[u][1])
+                        setattr(m2, sc.depends_on, ecls[wide])
+                        setattr(m2, sc.name, sc.ranges[wide][1] - (index % 3))
+                    for sc in deps:
+                        setattr(m2, sc.depends_on, getattr(type(m2), sc.enum)[narrow])
+                    syn2 = api.Synth(m2)
+                    judge(res, syn2.read(), build.norm(snapshot.snap_synth(syn2), "before"), dict(c.describe(), unit_switched=True), f"synth-unit-switched:{T}")
+                    res.count("unit_switched_values_written")
+            except Exception as e:
+                res.count("unit_switch_failed")
+                res.hist("unit_switch_failed_why", workload.exc_key(e))
     # metamodules with forced nesting (C15 workload)
     start = 900000 + spec_["shard"] * spec_["metamodules"]
     for i in range(start, start + spec_["metamodules"]):
